@@ -512,7 +512,8 @@ def decompress_destripe_cbin(
 
     def my_function(i_chunk, n_chunk):
         _sr = spikeglx.Reader(sr_file, **reader_kwargs)
-        _saturation = np.load(file_saturation, mmap_mode="r+")
+        if compute_rms:
+            _saturation = np.load(file_saturation, mmap_mode="r+")
         n_batch = int(np.ceil(i_chunk * CHUNK_SIZE / NBATCH))
         # on short recordings with many processes, a worker must not start beyond the last batch of the recording
         n_batch_last = int(np.ceil(max(_sr.ns - NBATCH, 0) / (NBATCH - SAMPLES_TAPER * 2)))
@@ -554,7 +555,8 @@ def decompress_destripe_cbin(
             chunk = _sr[first_s:last_s, :ncv].T
             saturated_samples, mute_saturation = saturation(
                 data=chunk, max_voltage=_sr.range_volts[:ncv], fs=_sr.fs)
-            _saturation[first_s:last_s] = saturated_samples
+            if compute_rms:
+                _saturation[first_s:last_s] = saturated_samples
             chunk[:, :SAMPLES_TAPER] *= taper[:SAMPLES_TAPER]
             chunk[:, -SAMPLES_TAPER:] *= taper[SAMPLES_TAPER:]
             # Apply filters
